@@ -4,6 +4,34 @@ use std::hash::{BuildHasher, Hasher};
 use std::sync::atomic::{AtomicU8, Ordering};
 
 pub mod seqrun;
+
+/// Counting allocator: net bytes currently allocated (alloc adds `layout.size()`, dealloc subtracts
+/// the size it is *told*), so a leak, a free with the wrong layout or a double free all show up as a
+/// net change over a scope in which everything was dropped.
+pub struct CountingAlloc;
+pub static NET_BYTES: std::sync::atomic::AtomicIsize = std::sync::atomic::AtomicIsize::new(0);
+
+unsafe impl std::alloc::GlobalAlloc for CountingAlloc {
+    unsafe fn alloc(&self, l: std::alloc::Layout) -> *mut u8 {
+        NET_BYTES.fetch_add(l.size() as isize, Ordering::Relaxed);
+        unsafe { std::alloc::System.alloc(l) }
+    }
+    unsafe fn dealloc(&self, p: *mut u8, l: std::alloc::Layout) {
+        NET_BYTES.fetch_sub(l.size() as isize, Ordering::Relaxed);
+        unsafe { std::alloc::System.dealloc(p, l) }
+    }
+    unsafe fn realloc(&self, p: *mut u8, l: std::alloc::Layout, new_size: usize) -> *mut u8 {
+        NET_BYTES.fetch_add(new_size as isize - l.size() as isize, Ordering::Relaxed);
+        unsafe { std::alloc::System.realloc(p, l, new_size) }
+    }
+}
+
+#[global_allocator]
+static GLOBAL: CountingAlloc = CountingAlloc;
+
+pub fn net_bytes() -> isize {
+    NET_BYTES.load(Ordering::SeqCst)
+}
 pub mod gen;
 
 /// splitmix64 — every random choice of the harness comes from one of these.
